@@ -388,5 +388,5 @@ func genConc(t *rapid.T) concCase {
 var chkConc = harness.Define("shared-client", genConc, runConc)
 
 func TestRandom(t *testing.T) {
-	chkConc.Rapid(t, harness.Pick(40, 400))
+	chkConc.Rapid(t, harness.Pick(40, 1500))
 }
